@@ -160,7 +160,7 @@ pub fn run(ctx: &Ctx, out: &mut CaseOut) {
                         };
                         match o2 {
                             Outcome::Answer(a) => {
-                                if &a != fj && !second && matches!(&control[si], Some(Outcome::Answer(c)) if c == &a) {
+                                if &a != fj && matches!(&control[si], Some(Outcome::Answer(c)) if c == &a) {
                                     out.count("differs-from-fresh-but-equals-uncrashed-solver-with-same-history(C10's subject)");
                                     continue;
                                 }
